@@ -182,6 +182,7 @@ def _conf_record(conf, km, model, want_atoms):
             atoms.append({"key": ids[id(a)], "elem": a.element, "name": a.name, "xyz": (milli(a.x), milli(a.y), milli(a.z)),
                           "bonded": [ids.get(id(b)) for b in a.bonded_atoms], "type": a.type,
                           "resname": a.res_name, "resnum": a.res_num, "chain": a.chain_id,
+                          "icode": (a.icode or " "),
                           "bridge": bool(a.cysteine_bridge), "sybyl": a.sybyl_type,
                           "from_file": km.key(a, model) is not None})
         out["atoms"] = atoms
